@@ -52,9 +52,10 @@ theorem facts_matchers_read : Generated.Config.matchResponseReads =
     [("cookie", ["res.Cookies"]), ("header", ["proxyutil.ResponseHeader"]), ("method", ["res.Request.Method"]),
      ("querystring", ["res.Request"]), ("url", ["res.Request.URL"])] := by decide
 
-/-- The library calls the conditions' meaning rests on: `strings.EqualFold` (method), `http.CanonicalHeaderKey`
-at filter construction (header), `URL.Query()` (query string). -/
+/-- The library calls the conditions' meaning rests on: `strings.EqualFold` (method), `URL.Query()` (query
+string). (Header names are canonicalised twice, at filter construction and in `proxyutil.Header.All`;
+either suffices, so neither is pinned — the `cond` ops cover it.) -/
 theorem facts_matcher_library_calls : Generated.Config.methodMatchCalls = ["strings.EqualFold"] ∧
-    Generated.Config.headerNewFilterCalls = ["http.CanonicalHeaderKey"] ∧ Generated.Config.queryMatchCalls = ["req.URL.Query"] := by decide
+    Generated.Config.queryMatchCalls = ["req.URL.Query"] := by decide
 
 end Martian.Props.C12
